@@ -198,3 +198,155 @@ theorem good_set {si : Bool} {d : Dict} (hd : Good si d) {t : Bytes} {n : Node} 
       · rw [← hqe]; exact hne q hq
 
 end Pyemv.Tlv
+
+namespace Pyemv.Tlv
+open Pyemv Pyemv.TlvSpec Pyemv.RoundTrip Pyemv.Refine
+
+/-! ### sizes -/
+
+theorem lenOk_mono {si : Bool} {m n : Nat} (h : m ≤ n) (hn : LenOk si n) : LenOk si m :=
+  ⟨fun a => Nat.le_trans h (hn.1 a), fun a => Nat.lt_of_le_of_lt h (hn.2 a)⟩
+
+theorem lenOk_of_validLen {si : Bool} {l : Bytes} {n : Nat} (h : ValidLen si l n) : LenOk si n := by
+  rcases h with ⟨b, _, hb, _⟩ | ⟨hsi, lb, bs, _, _, hcnt, hfrom⟩
+  · have : b.toNat < 256 := UInt8.toNat_lt b
+    refine ⟨fun _ => by omega, fun _ => ?_⟩
+    have : (256 : Nat) ≤ 256 ^ 127 := Nat.le_self_pow (by decide) 256
+    omega
+  · refine ⟨fun a => (by rw [hsi] at a; cases a), fun _ => ?_⟩
+    have h1 := fromBE_lt bs
+    have h2 : (lb &&& 0x7F).toNat ≤ 127 := by
+      have : lb &&& 0x7F ≤ 0x7F := UInt8.and_le_right
+      exact this
+    have h3 : 256 ^ bs.length ≤ 256 ^ 127 := Nat.pow_le_pow_right (by decide) (by omega)
+    omega
+
+theorem byteLen_le_of_lt_pow (m k : Nat) (h : m < 256 ^ k) : byteLen m ≤ k := by
+  by_cases hm : m = 0
+  · subst hm; rw [byteLen]; simp
+  · obtain ⟨a, _⟩ := byteLen_spec m (by omega)
+    have : 256 ^ (byteLen m - 1) < 256 ^ k := Nat.lt_of_le_of_lt a h
+    have := pow_lt_pow_cancel this
+    omega
+
+theorem top_clear_lt (b : UInt8) (h : b &&& 0x80 = 0) : b.toNat < 128 := by
+  have key : ∀ k : Fin 256, UInt8.ofNat k.val &&& 0x80 = 0 → k.val < 128 := by decide +kernel
+  have := key ⟨b.toNat, UInt8.toNat_lt b⟩
+  simp only [UInt8.ofNat_toNat] at this
+  exact this h
+
+/-- the minimal length field of a smaller-or-equal size is no longer than any valid length field -/
+theorem berLen_length_le (si : Bool) (m n : Nat) (l : Bytes) (hm : m ≤ n) (hv : ValidLen si l n) :
+    (berLen si m).length ≤ l.length := by
+  unfold berLen
+  rcases hv with ⟨b, rfl, hb, hform⟩ | ⟨hsi, lb, bs, rfl, _, _, hfrom⟩
+  · have hlt : si = true ∨ m < 128 := by
+      rcases hform with h | h
+      · exact Or.inl h
+      · right
+        have : b.toNat < 128 := top_clear_lt b h
+        omega
+    have : (si || decide (m < 128)) = true := by
+      rcases hlt with h | h <;> simp [h]
+    simp [this]
+  · split
+    · simp
+    · rename_i hc
+      simp only [List.length_cons, toBE_length]
+      have : m < 256 ^ bs.length := by
+        have := fromBE_lt bs; omega
+      have := byteLen_le_of_lt_pow m bs.length this
+      omega
+
+/-- size of the canonical encoding of one entry -/
+def entrySize (si : Bool) (t : Bytes) : Node → Nat
+  | .prim v => t.length + (berLen si v.length).length + v.length
+  | .cons kids => t.length + (berLen si (encSize si kids)).length + encSize si kids
+
+theorem encSize_nil (si : Bool) : encSize si [] = 0 := by simp [encSize, itemsOfDict, printItems]
+
+theorem encSize_cons (si : Bool) (t : Bytes) (n : Node) (rest : Dict) :
+    encSize si ((t, n) :: rest) = entrySize si t n + encSize si rest := by
+  cases n <;> simp [encSize, itemsOfDict, itemOfEntry, itemOfNode, printItems, entrySize] <;> omega
+
+theorem encSize_append_one (si : Bool) (d : Dict) (t : Bytes) (n : Node) :
+    encSize si (d ++ [(t, n)]) = encSize si d + entrySize si t n := by
+  induction d with
+  | nil => rw [List.nil_append, encSize_cons, encSize_nil]; omega
+  | cons e rest ih =>
+    obtain ⟨t', n'⟩ := e
+    rw [List.cons_append, encSize_cons, encSize_cons, ih]; omega
+
+/-- storing an entry grows the canonical size by at most the entry's own size -/
+theorem encSize_set_le {si : Bool} {d : Dict} (hd : Good si d) (t : Bytes) (n : Node) :
+    encSize si (Dict.set d t n) ≤ encSize si d + entrySize si t n := by
+  induction hd with
+  | nil =>
+    have : Dict.set [] t n = [(t, n)] := by simp [Dict.set]
+    rw [this, encSize_cons, encSize_nil]; omega
+  | @prim t' v rest _ _ _ hne _ ih =>
+    by_cases h : t' = t
+    · subst h
+      rw [set_cons_eq, map_id_of_absent rest t' n hne, encSize_cons, encSize_cons]; omega
+    · rw [set_cons_ne (t', Node.prim v) rest t n h, encSize_cons, encSize_cons]; omega
+  | @cons t' kids rest _ _ _ _ hne _ _ ih =>
+    by_cases h : t' = t
+    · subst h
+      rw [set_cons_eq, map_id_of_absent rest t' n hne, encSize_cons, encSize_cons]; omega
+    · rw [set_cons_ne (t', Node.cons kids) rest t n h, encSize_cons, encSize_cons]; omega
+
+end Pyemv.Tlv
+
+namespace Pyemv.Tlv
+open Pyemv Pyemv.TlvSpec Pyemv.RoundTrip Pyemv.Refine
+
+/-- folding well-formed objects into a good dictionary gives a good dictionary whose canonical encoding
+is no larger than the old one plus the bytes read -/
+theorem absNested_good (si : Bool) : ∀ (n : Nat) (items : List Item) (dec : Dict),
+    (printItems items).length ≤ n → (∀ i ∈ items, WF si i) → Good si dec →
+    Good si (absNested dec items) ∧ encSize si (absNested dec items) ≤ encSize si dec + (printItems items).length := by
+  intro n
+  induction n using Nat.strongRecOn with
+  | _ n ih =>
+    intro items dec hn hwf hd
+    match items, hwf with
+    | [], _ => simp only [absNested, printItems, List.length_nil, Nat.add_zero]; exact ⟨hd, Nat.le_refl _⟩
+    | .prim t l v :: more, hwf =>
+      have hw := hwf (.prim t l v) (by simp)
+      have hmore : ∀ i ∈ more, WF si i := fun i hi => hwf i (by simp [hi])
+      cases hw with
+      | prim hvt hp hl =>
+        have tne : 0 < t.length := List.length_pos_iff.mpr (validTag_ne_nil hvt)
+        have hsz : (printItems (Item.prim t l v :: more)).length = t.length + l.length + v.length + (printItems more).length := by
+          simp [printItems]; omega
+        have he : GoodEntry si t (.prim v) := GoodEntry.prim hvt hp (lenOk_of_validLen hl)
+        have hd' := good_set hd he
+        obtain ⟨g, sz⟩ := ih ((printItems more).length) (by omega) more (Dict.set dec t (.prim v)) (Nat.le_refl _) hmore hd'
+        have hs := encSize_set_le (si := si) hd t (.prim v)
+        have hb := berLen_length_le si v.length v.length l (Nat.le_refl _) hl
+        simp only [absNested]
+        refine ⟨g, ?_⟩
+        simp only [entrySize] at hs
+        omega
+    | .cons t l kids :: more, hwf =>
+      have hw := hwf (.cons t l kids) (by simp)
+      have hmore : ∀ i ∈ more, WF si i := fun i hi => hwf i (by simp [hi])
+      cases hw with
+      | cons hvt hp hk hl =>
+        have tne : 0 < t.length := List.length_pos_iff.mpr (validTag_ne_nil hvt)
+        have hsz : (printItems (Item.cons t l kids :: more)).length = t.length + l.length + (printItems kids).length + (printItems more).length := by
+          simp [printItems]; omega
+        obtain ⟨gk, szk⟩ := ih ((printItems kids).length) (by omega) kids [] (Nat.le_refl _) hk Good.nil
+        rw [encSize_nil] at szk
+        have hlk : LenOk si (encSize si (absNested [] kids)) := lenOk_mono (by omega) (lenOk_of_validLen hl)
+        have he : GoodEntry si t (.cons (absNested [] kids)) := GoodEntry.cons hvt hp gk hlk
+        have hd' := good_set hd he
+        obtain ⟨g, sz⟩ := ih ((printItems more).length) (by omega) more (Dict.set dec t (.cons (absNested [] kids))) (Nat.le_refl _) hmore hd'
+        have hs := encSize_set_le (si := si) hd t (.cons (absNested [] kids))
+        have hb := berLen_length_le si (encSize si (absNested [] kids)) (printItems kids).length l (by omega) hl
+        simp only [absNested]
+        refine ⟨g, ?_⟩
+        simp only [entrySize] at hs
+        omega
+
+end Pyemv.Tlv
